@@ -535,10 +535,11 @@ func (c *Ctx) proxySites(methodNames ...string) []proxySite {
 	for _, m := range methodNames {
 		want[m] = true
 	}
-	for _, fd := range c.allFuncDecls() {
-		if fd.Recv == nil || fd.Body == nil || !want[fd.Name.Name] {
+	for _, fd := range c.reachableFrom(methodNames...) {
+		if fd.Body == nil {
 			continue
 		}
+		_ = want
 		ord := 0
 		ast.Inspect(fd.Body, func(n ast.Node) bool {
 			call, ok := n.(*ast.CallExpr)
@@ -576,9 +577,30 @@ func ruleProxyComplete(c *Ctx) {
 	const rule = "proxy-complete"
 	for _, ps := range c.proxySites("MarshalJSON") {
 		c.saw(c.funcName(ps.fd))
+		// the object the proxy is populated from: the receiver, or (in a helper) the parameter standing for it
 		recv := c.recvObj(ps.fd)
+		roots := map[types.Object]int{}
+		ast.Inspect(ps.lit, func(n ast.Node) bool {
+			if e, ok := n.(ast.Expr); ok {
+				if p, ok := c.apath(e); ok && p.Root != nil {
+					if _, isVar := p.Root.(*types.Var); isVar && p.Root.Parent() != c.Types.Scope() {
+						roots[p.Root]++
+					}
+					return false
+				}
+			}
+			return true
+		})
+		if recv == nil || roots[recv] == 0 {
+			best := 0
+			for o, n := range roots {
+				if n > best {
+					recv, best = o, n
+				}
+			}
+		}
 		if recv == nil {
-			c.undecided(rule, ps.label, ps.lit.Pos(), "encoder has no named receiver")
+			c.undecided(rule, ps.label, ps.lit.Pos(), "cannot tell what the proxy is populated from")
 			continue
 		}
 		recvT := derefType(recv.Type())
